@@ -46,17 +46,10 @@ theorem kslots_arr_insertIdx (T : Nat) {a a' : Arr} {i : Nat} {e : Elem} (h : a'
 theorem kslots_arr_length (T : Nat) (a : Arr) : ((Cont.arr a).kslots T).length = a.toList.length := by
   simp [Cont.kslots]
 
-/-- what `arrInsert` did to the target container -/
-def InsertedAt (w w' : World) (p : SlabID) (i : Nat) (v : WVal) : Prop :=
-  ∃ a a' e, w.cont? p = some (.arr a) ∧ w'.cont? p = some (.arr a') ∧ i ≤ a.toList.length ∧
-    a'.toList = a.toList.insertIdx i e ∧
-    (∀ e0, v = .plain e0 → e = e0) ∧
-    (∀ x wr, v = .child x wr → e.pay = .ref x ∧ ∃ c, w'.cont? x = some c ∧ e.size = slotSize c wr)
-
 theorem arrInsert_ok {w : World} {p : SlabID} {i : Nat} {v : WVal} {cx : Ctx} {w' : World} {cx' : Ctx}
     (H : WorldOk D w cx.ctr) (hhand : HandleOk w p) (hv : WValOk w p (maxInlineArr w.T) v)
     (h : w.arrInsert p i v cx = .ok (w', cx')) :
-    WorldOk D w' cx'.ctr ∧ cx.ctr ≤ cx'.ctr ∧ InsertedAt w w' p i v ∧ HandleOk w' p := by
+    WorldOk D w' cx'.ctr ∧ cx.ctr ≤ cx'.ctr ∧ InsertedAt w w' p i v ∧ HandleOk w' p ∧ SigFrame w w' p := by
   obtain ⟨rank0, H0⟩ := H
   unfold arrInsert at h
   split at h
@@ -119,7 +112,8 @@ theorem arrInsert_ok {w : World} {p : SlabID} {i : Nat} {v : WVal} {cx : Ctx} {w
                 exact this.get_some : ∃ cp3, w3.cont? p = some cp3 ∧ Cont.SameData (.arr a') cp3)
               obtain ⟨a3, rfl, hl3, hrid3, _⟩ := hsd3.arr
               refine ⟨⟨rank0, H3⟩, by omega, ⟨a, a3, e, hpa, hcp3, hi, by rw [hl3, hl],
-                fun e0 he0 => by cases he0; rfl, fun x wr hxw => by cases hxw⟩, ?_⟩
+                fun e0 he0 => by cases he0; rfl, fun x wr hxw => by cases hxw⟩, ?_,
+                (sigFrame_setCont_shift _ _ _ _).trans (SigFrame.of_sig F3.sig p)⟩
               · exact hhand2.transfer (fun q x => (F3.sig.holds_iff q x).mp) F3.cur
             | child x wr =>
               obtain ⟨hlive, hroot, hanc, hwb⟩ := hv
@@ -215,14 +209,23 @@ theorem arrInsert_ok {w : World} {p : SlabID} {i : Nat} {v : WVal} {cx : Ctx} {w
                   (hinfo_setCallbackArr _ _ _ _ _) (idxOf_setCallbackArr _ _ _ _ _)
                   (fun hi' _ hcur => closureCurrent_parent H3 ⟨_, hcp3, List.mem_of_getElem? hpays3⟩
                     (by rw [hx3]; rfl) hcur)
-              refine ⟨⟨rank', H4⟩, by have := hctr1; omega, ⟨a, a3, e, hpa, by rw [cont?_setCallbackArr]; exact hcp3, hi,
-                by rw [hl3, hl], fun e0 he0 => (by cases he0), fun x' wr' hxw => ?_⟩, ?_⟩
-              · cases hxw
-                exact ⟨hepay, c1, by rw [cont?_setCallbackArr]; exact hx3, by rw [he]⟩
-              · exact hhand3.transfer (fun q y hq => by
+              have hhand4 : HandleOk (w3.setCallbackArr p i (.child x wr)) p :=
+                hhand3.transfer (fun q y hq => by
                   obtain ⟨qc, hqc, hm⟩ := hq
                   rw [cont?_setCallbackArr] at hqc
                   exact ⟨qc, hqc, hm⟩) hcur34
+              refine ⟨⟨rank', H4⟩, by have := hctr1; omega, ⟨a, a3, e, hpa, by rw [cont?_setCallbackArr]; exact hcp3, hi,
+                by rw [hl3, hl], fun e0 he0 => (by cases he0), fun x' wr' hxw => ?_⟩, ?_,
+                (((SigFrame.of_sig hS1 p).trans (sigFrame_setCont_shift _ _ _ _)).trans (SigFrame.of_sig F3.sig p)).trans
+                  (sigFrame_cbArr _ _ _ _ _)⟩
+              · cases hxw
+                refine ⟨hepay, ?_, c1, by rw [cont?_setCallbackArr]; exact hx3, by rw [he]⟩
+                refine HandleOk.child x ⟨p, none, maxInlineArr w3.T - 2 * wr, wr⟩
+                  (by rw [hinfo_setCallbackArr, if_pos rfl]) ?_ hhand4
+                refine ⟨maxInlineArr w3.T, _, Or.inl ⟨a3, i, by rw [cont?_setCallbackArr]; exact hcp3, ?_, he3, rfl,
+                  by simp⟩⟩
+                rw [idxOf_setCallbackArr, if_pos ⟨rfl, rfl⟩]
+              · exact hhand4
   · cases h
 
 end World
